@@ -166,3 +166,46 @@ def param_or_empty_forms(prm: str) -> set[str]:
         f"{prm} or dict()",
         f"dict({prm}) if {prm} else {{}}",
     }
+
+
+def reaching_defs(g, name: str, at) -> list:
+    """CFG statement nodes binding `name` (assignment, walrus, for target, with-as) that can reach CFG node `at`
+    without another binding of the name in between."""
+    import ast as _ast
+
+    def binds(n) -> bool:
+        a = n.ast
+        if a is None:
+            return False
+        roots = [a]
+        if n.kind == "test" or isinstance(a, _ast.expr):
+            roots = [a]
+        for r in roots:
+            if isinstance(r, (_ast.For, _ast.AsyncFor)):
+                tg = [r.target]
+            elif isinstance(r, (_ast.With, _ast.AsyncWith)):
+                tg = [i.optional_vars for i in r.items if i.optional_vars is not None]
+            elif isinstance(r, _ast.Assign):
+                tg = list(r.targets)
+            elif isinstance(r, (_ast.AnnAssign, _ast.AugAssign)):
+                tg = [r.target]
+            else:
+                tg = []
+            for t in tg:
+                if any(isinstance(x, _ast.Name) and x.id == name for x in _ast.walk(t)):
+                    return True
+            if isinstance(r, (_ast.If, _ast.While, _ast.Try, _ast.For, _ast.AsyncFor, _ast.With, _ast.AsyncWith, _ast.FunctionDef, _ast.AsyncFunctionDef)):
+                scan = [r.test] if isinstance(r, (_ast.If, _ast.While)) else [r.iter] if isinstance(r, (_ast.For, _ast.AsyncFor)) else [i.context_expr for i in r.items] if isinstance(r, (_ast.With, _ast.AsyncWith)) else []
+            else:
+                scan = [r]
+            for sc in scan:
+                if any(isinstance(x, _ast.NamedExpr) and x.target.id == name for x in _ast.walk(sc)):
+                    return True
+        return False
+
+    defs = [n for n in g.nodes if n.kind in ("stmt", "test") and binds(n)]
+    out = []
+    for d in defs:
+        if g.reach_avoiding([d], lambda x: x is at, lambda x: x is not d and x is not at and x in defs) is not None:
+            out.append(d)
+    return out
